@@ -6,7 +6,9 @@ import re
 
 import vlib
 
-RULE = ("four streams. hist: histories of 5-30 requests over ONE engine on three fixed federations (accounts/reviews/"
+RULE = ("four streams. hist: histories of 5-30 requests over ONE engine; one history in three runs on a configuration of "
+        "the shared federation generator harness/fedlab (keys, @requires, @provides, interfaces, unions ...; the monolithic "
+        "reference is compared on the fixed federations only), the others on three fixed federations (accounts/reviews/"
         "products with argument-carrying fields, an interface and an Upload scalar; the multi-fetch test federation plus a "
         "third subgraph; the schedule-fetches test federation plus a subgraph whose field @requires one field of each of the "
         "others) with generated universes and generated operations (nested entity hops, lists, aliases, arguments with "
@@ -54,7 +56,8 @@ def classify(case, detail):
     d = detail
     if d.startswith("plan_deterministic/reused"):
         return "planner-reuse-stale-state"
-    if (d.startswith("plan_deterministic/fresh") or d.startswith("requests_deterministic")) and " minify=t expanded_equal=t " in d:
+    if (d.startswith("plan_deterministic/fresh") or d.startswith("requests_deterministic") or d.startswith("cache_hit_same_plan")) \
+            and " minify=t expanded_equal=t " in d:
         return "minify-fragment-names-map-order"
     if d.startswith("mapper_spec collision=true"):
         return "mapper-name-collision"
@@ -82,10 +85,11 @@ def hist_distribution(cases):
          "histories_where_option_sets_send_different_requests": 0, "requests_with_mapper_collision": 0,
          "requests_rejected_by_engine": 0}
     for c in cases:
-        m = re.match(r"\(c09 hist (\w+) \d+ \(flags (\w) (\w)\)", c)
+        m = re.match(r"\(c09 hist ([\w-]+) \d+ \(flags (\w) (\w)\)", c)
         if not m:
             continue
-        d["by_config"][m.group(1)] = d["by_config"].get(m.group(1), 0) + 1
+        cn = "generated" if m.group(1).startswith("gen-") else m.group(1)
+        d["by_config"][cn] = d["by_config"].get(cn, 0) + 1
         if m.group(2) == "t" and m.group(3) == "t":
             d["with_fork_and_join"] += 1
         parts = c.split(' (run "')
@@ -163,8 +167,8 @@ def _batches(chk, exe, model, state, samples, quick):
         dist["det"] = det_distribution(b[0])
         dist["det"]["processes"] = procs
         samples += [c[:300] for c in b[0][:1]]
-    b = vlib.run_batch(chk, "%s hist -seed %d -n %d -opts %s -workers 8 -out {out}" %
-                       (exe, seed, 80 if quick else 600, "sample4" if quick else "all"), model, "hist", timeout=20000)
+    b = vlib.run_batch(chk, "%s hist -seed %d -n %d -opts %s -gen 3 -workers 8 -out {out}" %
+                       (exe, seed, 90 if quick else 600, "sample4" if quick else "all"), model, "hist", timeout=20000)
     if b:
         vlib.digest_batch(chk, b[0], b[1], classify, state)
         dist["hist"] = hist_distribution(b[0])
